@@ -24,7 +24,12 @@ var junkNumbers = []string{"NaN", "nan", "Inf", "-Inf", "+inf", "1e999", "-1e999
 func corrupt(r *rand.Rand, text string) string {
 	lines := strings.Split(text, "\n")
 	pick := func() int { return r.Intn(len(lines)) }
-	switch r.Intn(23) {
+	switch r.Intn(24) {
+	case 23: // a long malformed line that is mostly multi-byte characters (more bytes than characters, around 200 and far beyond)
+		long := []string{strings.Repeat("ж", 130), strings.Repeat("茶", 80), strings.Repeat("🍵", 60), strings.Repeat("щ", 700), strings.Repeat("é", 101)}[r.Intn(5)]
+		bad := []string{"  " + long + ": 1oo", "  " + long, "  x: " + long, "  - " + long + " " + long + ": 1,5"}[r.Intn(4)]
+		i := pick()
+		lines = append(lines[:i+1], append([]string{bad}, lines[i+1:]...)...)
 	case 22: // odd category paths: trailing, leading or doubled separators in an entry or heading name
 		for try := 0; try < 10; try++ {
 			i := pick()
@@ -199,6 +204,8 @@ func c08Shapes(r *rand.Rand, element, food string) []c08Shape {
 		s("csv", "log"), s("csv", "database"), s("csv", "database-resolved"), s("stats"), s("print"),
 		s("summary", "2021/01/24"), s("summary", "today"), s("summary", "yesterday"), s("summary"), s("summary", "garbage"), s("summary", "2021/99/99"),
 		s("lint", "food.yaml"), s("lint", "log.yaml"), s("lint", "--silent", "log.yaml"), s("lint"), s("lint", "nonexistent"), s("lint", "."),
+		// both spellings of one flag at the same level, stray and repeated flags
+		l1("reg", "-b", "2021/01/01", "--begin", "2021/01/02"), l1("bal", "-c", "--collapse"), l1("lint", "-s", "--silent", "log.yaml"), l1("reg", "-f", "a", "--single-food", "b"), l1("reg", "-s", "x", "-s", "y"), l1("print", "-e", "2021/01/01", "--end", "2021/01/05"),
 		l1("gen", "man"), l1("gen", "markdown"), l1("gen"), l1("help"), l1("bogus"), l1("reg", "--bogus-flag"), l1("report"), l1("csv"), l1("report", "bogus"), l1("--help"), l1("--version"), l1("reg", "--help"), l1(),
 	}
 	// flag values derived from what the files contain: case variants, fragments, padded, recipe names
@@ -215,6 +222,8 @@ var c08Globals = [][]string{
 	{"-b", "2021/01/24"}, {"-e", "2021/01/24"}, {"-b", "today", "-e", "today"}, {"-b", "last7"}, {"-b", ""}, {"-e", ""}, {"-b", "garbage"}, {"-e", "next tuesday"}, {"-b", "2021/99/99"},
 	{"-b", "9999/12/31", "-e", "0001/01/01"},
 	{"--maxdepth", "-1"}, {"--maxdepth", "0"}, {"--maxdepth", "1"}, {"--maxdepth", "100000000"}, {"--maxdepth", "x"},
+	// both spellings of one flag at the same level, a flag twice
+	{"-b", "2021/01/01", "--begin", "2021/01/02"}, {"-e", "2021/01/01", "-e", "2021/01/02"}, {"--no-color", "--no-color"}, {"-d", "food.yaml", "--database", "food.yaml"},
 	{"--maxdepth", "9223372036854775807"}, {"--maxdepth", "9223372036854775806"}, {"--maxdepth", "2147483648"}, {"--maxdepth", "-9223372036854775808"}, {"--maxdepth", "+7"}, {"--maxdepth", "0x10"}, {"--maxdepth", " 5"},
 	{"--date-format", "bogus"}, {"--date-format", ""}, {"--date-format", "2006-01-02"}, {"--date-format", "Monday"}, {"--date-format", "%Y"},
 	{"--today", "garbage"}, {"--today", ""}, {"--today", "2021/02/30"},
@@ -303,6 +312,11 @@ func runC08(c *core.Ctx) {
 			c.Count("hostile_config_files", 1)
 		}
 		args = append(args, sh.args...)
+		if r.Intn(10) == 0 {
+			// what a shell's completion function appends when TAB is pressed; also after words that do not parse
+			args = append(args, "--generate-bash-completion")
+			c.Count("completion_requests", 1)
+		}
 		name := "(no command)"
 		if len(sh.args) > 0 {
 			name = strings.Join(sh.args[:min(2, len(sh.args))], " ")
